@@ -6,6 +6,7 @@ package impl
 import (
 	"fmt"
 	"runtime/debug"
+	"sync/atomic"
 
 	"github.com/GuanceCloud/platypus/pkg/ast"
 	"github.com/GuanceCloud/platypus/pkg/engine"
@@ -43,8 +44,15 @@ func catch(c **Crash) {
 	}
 }
 
+// DisturbEvery > 0 makes every n-th Parse be preceded by a parse of an unrelated malformed text.
+var DisturbEvery int64
+var parseCalls atomic.Int64
+
 // Parse calls parser.ParsePipeline.
 func Parse(name, src string) (stmts ast.Stmts, err error, crash *Crash) {
+	if DisturbEvery > 0 && parseCalls.Add(1)%DisturbEvery == 0 {
+		DisturbParse()
+	}
 	defer catch(&crash)
 	stmts, err = parser.ParsePipeline(name, src)
 	return
@@ -71,6 +79,9 @@ func FuncTables(call map[string]plrt.FuncCall, check map[string]plrt.FuncCheck) 
 
 // LoadV1 calls engine.ParseScript.
 func LoadV1(scripts map[string]string, call map[string]plrt.FuncCall, check map[string]plrt.FuncCheck) (ok map[string]*plrt.Script, errs map[string]error, crash *Crash) {
+	if DisturbEvery > 0 && parseCalls.Add(1)%DisturbEvery == 0 {
+		DisturbParse()
+	}
 	defer catch(&crash)
 	ok, errs = engine.ParseScript(scripts, call, check)
 	return
@@ -101,6 +112,9 @@ func RunV1(s *plrt.Script, pt *input.Point, sig plrt.Signal) (err *errchain.PlEr
 
 // LoadV2 calls engine.ParseV2.
 func LoadV2(name, src string, fn map[string]*runtimev2.Fn) (s *runtimev2.Script, err error, crash *Crash) {
+	if DisturbEvery > 0 && parseCalls.Add(1)%DisturbEvery == 0 {
+		DisturbParse()
+	}
 	defer catch(&crash)
 	s, err = engine.ParseV2(name, src, fn)
 	return
